@@ -137,7 +137,15 @@ def run(pid, tier, seed, replay):
     for mode, nq, nt in (("stress", 40, 400), ("restart", 40, 400), ("writeback", 24, 240), ("lockheld", 40, 400)):
         def sone(i, mode=mode, nq=nq, nt=nt):
             o = os.path.join(wd, "sio_%s_%02d.ndjson" % (mode, i))
-            vlib.run([sdrv, mode, str((nq if tier == "quick" else nt) // 8), str(seed * 100 + i), o], timeout=6000)
+            p = vlib.run([sdrv, mode, str((nq if tier == "quick" else nt) // 8), str(seed * 100 + i), o], timeout=6000, check=False)
+            if p.returncode != 0:
+                # a driver process that dies inside the crew ("Timer activity never corrupts crew state") is a violation
+                died = [l.strip() for l in p.stdout.splitlines() if "fatal error:" in l or "panic:" in l][:3]
+                if not died:
+                    raise vlib.CannotRun("sio timers driver failed (%d): %s" % (p.returncode, p.stdout[-1500:]))
+                with open(o, "w") as f:
+                    f.write(json.dumps({"id": 1, "kind": "race-log", "impl": "sio", "events": [{"ev": "race", "sig": "process-died", "frames": died, "seq": 1, "t": 0}],
+                                        "realised": True, "outcome": "returned", "raw": json.dumps({"mode": mode, "died": died}), "short": 30, "long": 3600000}) + "\n")
             return o
         with cf.ThreadPoolExecutor(max_workers=8) as ex:
             souts += list(ex.map(sone, range(8)))
@@ -151,17 +159,24 @@ def run(pid, tier, seed, replay):
                 c["id"] = k
                 f.write(json.dumps(c) + "\n")
     runs.append(("sio", out))
-    # race detector as a sensor: sio timers together with the crew loop
+    # race detector as a sensor: sio timers together with the crew loop (free-running requests; the timers machine's state
+    # written back through the captain while timers are pending)
     srace = vlib.build_driver("siotimerdrv", wd, race=True)
-    o = os.path.join(wd, "sio_race_stress.ndjson")
     e = dict(os.environ, GORACE="halt_on_error=0")
-    p = vlib.run([srace, "stress", "12" if tier == "quick" else "60", str(seed + 3), o], env=e, timeout=3000, check=False)
-    reports = [r for r in p.stdout.split("==================") if "WARNING: DATA RACE" in r]
     evs = []
-    for r in reports:
-        mine = "sio-timer-goroutine-vs-crew-loop" if "sio.(*TimerEntry).run" in r else "other"
-        frames = sorted(set(l.strip().split("(")[0] for l in r.splitlines() if "github.com/Comcast/sheens" in l and l.startswith("  ")))
-        evs.append({"ev": "race", "sig": mine, "frames": frames[:8], "seq": len(evs) + 1, "t": 0})
+    for mode, nq, nt in (("stress", 12, 60), ("writeback", 12, 60)):
+        o = os.path.join(wd, "sio_race_%s.ndjson" % mode)
+        p = vlib.run([srace, mode, str(nq if tier == "quick" else nt), str(seed + 3), o], env=e, timeout=3000, check=False)
+        reports = [r for r in p.stdout.split("==================") if "WARNING: DATA RACE" in r]
+        for r in reports:
+            mine = "sio-timer-goroutine-vs-crew-loop" if "sio.(*TimerEntry).run" in r else "other"
+            frames = sorted(set(l.strip().split("(")[0] for l in r.splitlines() if "github.com/Comcast/sheens" in l and l.startswith("  ")))
+            evs.append({"ev": "race", "sig": mine, "frames": frames[:8], "seq": len(evs) + 1, "t": 0})
+        if not reports and p.returncode != 0:
+            if "fatal error:" in p.stdout or "panic:" in p.stdout:
+                evs.append({"ev": "race", "sig": "process-died", "frames": [l.strip() for l in p.stdout.splitlines() if "fatal error:" in l or "panic:" in l][:3], "seq": len(evs) + 1, "t": 0})
+            else:
+                raise vlib.CannotRun("race build of the sio timers driver failed (%d): %s" % (p.returncode, p.stdout[-1500:]))
     if evs:
         rp = os.path.join(wd, "sio_race_log.ndjson")
         open(rp, "w").write(json.dumps({"id": 1, "kind": "race-log", "impl": "sio", "events": evs, "realised": True, "outcome": "returned",
